@@ -66,6 +66,7 @@ type ReplayCfg struct {
 	TestPkgDir string            `json:"test_pkg_dir"` // package dir under /repo where the replay test lives
 	Overlay    map[string]string `json:"overlay"`      // extra overlay entries for native replay: /repo-relative -> /verif-relative
 	Disabled   bool              `json:"disabled"`
+	NoIntercept bool             `json:"no_native_intercept"` // run natively against the unmodified functions (the real git binary)
 	Why        string            `json:"why"`
 }
 
